@@ -566,6 +566,18 @@ func suiteC08(c *ctx) {
 			}
 			cc.Members = append(cc.Members, w)
 		}
+		if i%13 == 5 {
+			// a member whose payload ends one or two bytes past a multiple of the decoder's output
+			// window, over a tiny alphabet (short codes: the last literals and the end-of-block code
+			// share one lookup entry), written by fastgo's Huffman-only or level-1 writer, followed by
+			// another member of a few KiB
+			n := 65536 + 32768*r.Intn(3) + r.Range(1, 2)
+			big := &WCase{Set: Setting{API: "gzip", Level: r.Pick([]int{-2, -2, 1})}, Datas: []DataSpec{{Gen: r.PickS([]string{"uni1", "two", "uni2"}), Seed: r.U64(), N: n}}, Ops: []Op{{K: "w", N: n}, {K: "c"}}}
+			next := &WCase{Set: Setting{API: "gzip", Level: r.Pick([]int{-2, 1, 6})}, Datas: []DataSpec{{Gen: "text", Seed: r.U64(), N: r.Range(3000, 9000)}}, Prop: r.PickS([]string{"", "std"})}
+			next.Ops = []Op{{K: "w", N: next.Datas[0].N}, {K: "c"}}
+			cc.Members = []*WCase{big, next}
+			cc.Reads = "big"
+		}
 		cc.W = cc.Members[0]
 		if r.Intn(3) == 0 {
 			t := r.Bytes(1 + r.Intn(40))
